@@ -3,6 +3,7 @@ package worlds
 import (
 	"fmt"
 
+	"github.com/bradenaw/juniper/iterator"
 	"github.com/bradenaw/juniper/parallel"
 	"github.com/bradenaw/juniper/stream"
 
@@ -38,6 +39,7 @@ func (it *countingIter) Next() (int, bool) {
 }
 
 func parmapWorld(r *R) {
+	sim.GOMAXPROCS(r.Cfg.GOMAXPROCS) // (an earlier episode of this world may have left another value)
 	isStream := r.Choose(3, "variant") != 0
 	n := r.Choose(16, "n")
 	if r.Choose(4, "long") == 3 {
@@ -45,9 +47,42 @@ func parmapWorld(r *R) {
 	}
 	parallelism := []int{2, -1, 0, 1, 4, 7, 9, 12}[r.Choose(8, "parallelism")]
 	bufferSize := []int{2, -1, 0, 1, 4, 7, 9, 12}[r.Choose(8, "buffersize")]
+	// Earlier use of the package in the same process, while the program had another GOMAXPROCS: the
+	// call under test goes by the value in force when it is made.
+	if r.Choose(4, "earlier-call-other-gomaxprocs") == 3 {
+		r.Probe("earlier-call-under-other-gomaxprocs")
+		g := sim.GOMAXPROCS(r.Cfg.GOMAXPROCS*2 + 1)
+		sum := 0
+		it := parallel.MapIterator[int, int](iterator.Slice([]int{1, 2, 3}), -1, -1, func(x int) int { sim.Yield("earlier-f"); return x })
+		for {
+			v, ok := it.Next()
+			if !ok {
+				break
+			}
+			sum += v
+		}
+		if sum != 6 {
+			r.Violate("C14", "earlier-call/wrong-output", "an earlier MapIterator over [1 2 3] with the identity yielded a sum of %d", sum)
+			return
+		}
+		sim.GOMAXPROCS(g)
+	}
 	eff := parallelism
 	if eff <= 0 {
 		eff = r.Cfg.GOMAXPROCS
+	}
+	constructed := false // the call under test has been made
+	// ... and GOMAXPROCS may change while the call under test is at work; the number of workers was
+	// fixed when it was made
+	if parallelism <= 0 && r.Choose(3, "gomaxprocs-changes-midway") == 2 {
+		r.Probe("gomaxprocs-changed-while-running")
+		spin := r.Choose(12, "gomaxprocs-change-spin")
+		to := []int{r.Cfg.GOMAXPROCS + 3, 1}[r.Choose(2, "gomaxprocs-change-to")]
+		sim.GoNamed("gomaxprocs-changer", func() {
+			sim.WaitUntil("changer-wait-call", func() bool { return constructed })
+			Spin(spin, "changer-pace")
+			sim.GOMAXPROCS(to)
+		})
 	}
 	if bufferSize < eff {
 		r.Probe("buffer-smaller-than-parallelism")
@@ -174,6 +209,7 @@ func parmapWorld(r *R) {
 			v, _ := f(nil, x)
 			return v
 		})
+		constructed = true
 		done := false
 		sim.GoNamed("consumer", func() {
 			for {
@@ -257,6 +293,7 @@ func parmapWorld(r *R) {
 	}
 	wrapped := &pullCounter{Src: src, onPull: func() { pulled++; onPull() }}
 	ms := parallel.MapStream[int, int](ctorCtx.C, wrapped, parallelism, bufferSize, f)
+	constructed = true
 	closeAfter := -1
 	if r.Choose(3, "close-early") == 2 {
 		closeAfter = r.Choose(n+1, "close-after")
